@@ -430,7 +430,8 @@ class ConfigParser(object):
         if len(cp[override.section]) == 0:
           cp.remove_section(override.section)
       else:
-        cp[override.section][override.key] = override.value
+        # ... as in a file, blanks around a value are not part of it ('-e "Tabulation:target = GULP"').
+        cp[override.section][override.key] = override.value.strip()
 
     # Add additional values
     for override in additional:
@@ -442,7 +443,7 @@ class ConfigParser(object):
       # [Variables] is the parser's default section: it always exists and cannot be added.
       if not cp.has_section(override.section) and override.section != cp.default_section:
         cp.add_section(override.section)
-      cp[override.section][override.key] = override.value
+      cp[override.section][override.key] = override.value.strip()
 
     return cp
 
